@@ -101,6 +101,19 @@ type faultPlan struct {
 	gateFn   func()
 	gateSeen int
 	gateAt   int
+
+	// cancel-during: cancelFn runs right after the store answered the cancelAt-th request (of the listed
+	// kinds) that the subject sent since the current API call began
+	cancelFn   func()
+	cancelAt   int
+	cancelSeen int
+}
+
+// armCancel arms (fn != nil) or disarms the cancel-during hook for the API call that starts now.
+func (p *faultPlan) armCancel(at int, fn func()) {
+	p.mu.Lock()
+	p.cancelFn, p.cancelAt, p.cancelSeen = fn, at, 0
+	p.mu.Unlock()
 }
 
 func (p *faultPlan) decide(c *uni.Call) uni.Action {
@@ -119,6 +132,15 @@ func (p *faultPlan) decide(c *uni.Call) uni.Action {
 	}
 	p.mu.Lock()
 	defer p.mu.Unlock()
+	if p.cancelFn != nil {
+		p.cancelSeen++
+		if p.cancelSeen >= p.cancelAt {
+			fn := p.cancelFn
+			p.cancelFn = nil
+			// delivered and answered; the caller's context dies before the client looks at the answer
+			return uni.Action{Kind: uni.Pass, After: fn}
+		}
+	}
 	if c.Cmd == tikvrpc.CmdPrewrite && p.gateFn != nil && hasKey(ks, p.gateKey) {
 		p.gateSeen++
 		if p.gateSeen >= p.gateAt {
